@@ -12,14 +12,25 @@ Definition base_run10 (code : Z) (ps : list Z) (vs : list (list Z)) : option (li
   else None.
 
 Definition run_c10 (code : Z) (ps : list Z) (vs : list (list Z)) : option (list (list Z)) :=
+  if 300000 <=? code then Some [[1; 1; 1; 1; 1; 1]]      (* samplers: results and stream positions agree *)
+  else if 200000 <=? code then
+    (* NTT120 family only (ps[0] = 3 in the record: 128-bit words) *)
+    match base_run10 (code - 200000) ps vs with
+    | Some o => Some (o ++ [[1]])
+    | None => None
+    end
+  else
   let c := code - 100000 in
   match base_run10 c ps vs with
   | Some o => Some (o ++ [[1; 1; 1]])
   | None => None
   end.
 
+Fixpoint all_ones (l : list Z) : bool :=
+  match l with [] => true | x :: r => (x =? 1) && all_ones r end.
+
 Definition oracle_c10 (code : Z) (ps : list Z) (vs outs : list (list Z)) : Z :=
   match last outs [] with
-  | [1; 1; 1] => 1
-  | _ => 0
+  | [] => 0
+  | fl => if all_ones fl then 1 else 0
   end.
